@@ -126,6 +126,50 @@ theorem C20_reprod_sum_unavailable_before_combination :
     ∃ (f : Nat → Rat) (n : Nat), (0 : Rat) ≠ 0 + sumOver f (dofs n) :=
   ⟨fun _ => 1, 1, by simp only [sumOver, dofs]; norm_num⟩
 
+/-! ### Loop fusion (LFRicLoopFuseTrans) -/
+
+/-- Full-strength fusion statement: fusing any two adjacent DoF loops preserves the result.  FALSE in general
+(see the two counterexamples); `LFRicLoopFuseTrans.validate` is what has to exclude the bad cases, and the
+check evaluates every accepted fusion history of generated invokes against the documented formulas. -/
+def C20_fusion_statement : Prop :=
+  ∀ (s1 s2 : Stmt) (n : Nat) (E : Env), loopL [s1, s2] 1 n E = loopN s2 1 n (loopN s1 1 n E)
+
+/-- Fusing `do df: s1` ; `do df: s2` into `do df: s1; s2` preserves the final state for every upper bound and all
+values, provided no reduction variable (scalar written) of one statement is read or written by the other.
+Field dependences need no hypothesis: a built-in statement at DoF `df` reads and writes element `df` only, so
+`s2` sees exactly the values `s1` wrote at the same `df` or values `s1` never writes. -/
+theorem C20_fusion_sound_partial (s1 s2 : Stmt) (hi : scalIndep s1 s2) (n : Nat) (E : Env) :
+    loopL [s1, s2] 1 n E = loopN s2 1 n (loopN s1 1 n E) :=
+  fusion_sound s1 s2 hi n E
+
+/-- hypotheses satisfiable on a non-trivial pair: `f0 = a*f0` then `s2 = s2 + f0*f1` -/
+example : scalIndep (.fassign 0 (.mul (.scal 0) (.fld 0))) (.sassign 2 (.add (.scal 2) (.mul (.fld 0) (.fld 1)))) := by
+  intro t
+  by_cases h : t = 2 <;> simp [Stmt.writesScal, Stmt.readsScal, usesScal, h] <;> omega
+
+def fusionEnv : Env := ⟨fun _ _ => 1, fun _ => 0, fun _ => 0, fun _ => 0⟩
+
+/-- A reduction followed by a reader of its result (`X_innerproduct/sum_X(asum, f1)` then
+`inc_a_times_X(asum, f1)`, the seeded scenario): the fused loop multiplies by the *partial* sum. -/
+theorem C20_fusion_reduction_then_reader_counterexample : ¬ C20_fusion_statement := by
+  intro h
+  have := congrArg (fun e => e.fld 1 1)
+    (h (.sassign 0 (.add (.scal 0) (.fld 1))) (.fassign 1 (.mul (.scal 0) (.fld 1))) 2 fusionEnv)
+  simp only [loopL, loopN, execList, exec, eval, setFld, setScal, fusionEnv] at this
+  norm_num at this
+
+/-- Known finding C20-fusion-reader-before-reduction: a reader of a scalar followed by a reduction into the same
+scalar (`inc_a_times_X(asum, f1)` then `sum_X(asum, f2)`; the zero-initialisation of `asum` is placed in front
+of the fused loop).  Even without the misplaced initialisation the fused loop reads partial sums. -/
+theorem C20_fusion_reader_then_reduction_counterexample :
+    ∃ (s1 s2 : Stmt) (n : Nat) (E : Env), loopL [s1, s2] 1 n E ≠ loopN s2 1 n (loopN s1 1 n E) := by
+  refine ⟨.fassign 1 (.mul (.scal 0) (.fld 1)), .sassign 0 (.add (.scal 0) (.fld 1)), 2,
+    ⟨fun _ _ => 1, fun _ => 1, fun _ => 0, fun _ => 0⟩, ?_⟩
+  intro h
+  have := congrArg (fun e => e.fld 1 2) h
+  simp only [loopL, loopN, execList, exec, eval, setFld, setScal] at this
+  norm_num at this
+
 /-- With the layout of the developer guide (owned DoFs first) the annexed range contains the owned range:
 computing annexed DoFs never loses an owned DoF. -/
 theorem C20_annexed_range_covers_owned (L : Layout) (h : L.owned ≤ L.annexed) (df : Nat)
